@@ -189,6 +189,8 @@ func (r *SenderReport) Unmarshal(rawPacket []byte) error {
 	packetBody := rawPacket[headerLength:]
 
 	r.SSRC = binary.BigEndian.Uint32(packetBody[srSSRCOffset:])
+	r.Reports = nil
+	r.ProfileExtensions = nil
 	r.NTPTime = binary.BigEndian.Uint64(packetBody[srNTPOffset:])
 	r.RTPTime = binary.BigEndian.Uint32(packetBody[srRTPOffset:])
 	r.PacketCount = binary.BigEndian.Uint32(packetBody[srPacketCountOffset:])
